@@ -39,9 +39,8 @@ QUICK_P = ["sphere", "cylinder", "core_multi_shell", "hollow_cylinder", "vesicle
            "lamellar", "power_law", "adsorbed_layer", "parallelepiped"]
 SLOW_P = ["pringle"]
 BOUNDS = {
-    "quick": {"P": QUICK_P, "S": S_MODELS, "D": 3},
-    "thorough": {"P": "all 74 models that are not structure factors", "S": S_MODELS, "D": 3,
-                 "D4_P": QUICK_P, "D2_P": SLOW_P},
+    "quick": {"P": "all 74 models that are not structure factors", "S": S_MODELS, "D": 2, "D3_P": QUICK_P},
+    "thorough": {"P": "all 74 models that are not structure factors", "S": S_MODELS, "D": 4, "D2_P": SLOW_P},
 }
 CASE_TIMEOUT = 300
 
@@ -56,8 +55,6 @@ S_ALT = {
 
 
 def p_models(ctx):
-    if ctx.quick:
-        return list(QUICK_P)
     from sasmodels import core
     return [m for m in core.list_models("all") if m not in S_MODELS]
 
@@ -124,9 +121,9 @@ def cases(ctx):
         if p in SLOW_P:
             D = 2
         elif ctx.quick:
-            D = 3
+            D = 3 if p in QUICK_P else 2
         else:
-            D = 4 if p in QUICK_P else 3
+            D = 4
         for s in S_MODELS:
             for k, c in deviations(_dims(ctx, p, s), D):
                 out.append({"P": p, "S": s, "dev": k, "cfg": c})
@@ -316,8 +313,9 @@ def run_case(case, ctx):
     finite = bool(np.all(np.isfinite(ref)))
     nt = bool(finite and np.any(np.abs(Sq - 1.0) > 1e-6))
     info_line = ("\n  P alone: call_Fq(%s, mode=%d) -> <F^2>=%s <F>=%s R_eff=%r V_shell=%r ratio=%r\n  S alone: call_kernel(%s, %s) -> %s"
-                 % (pname, mode, F2, F1, reff_p, vshell, vratio, sname,
-                    {k: v for k, v in s_call.items() if k not in ("scale", "background")}, Sq))
+                 % (pname, mode, F2, F1, float(reff_p), float(vshell), float(vratio), sname,
+                    {k: (float(v) if isinstance(v, (float, np.floating)) else v) for k, v in s_call.items()
+                     if k not in ("scale", "background")}, Sq))
     ok, err = refmodel.close(impl, ref, magn, rtol=1e-11)
     if not ok:
         return r.fail("%s\n  impl=%s\n  ref =%s%s" % (desc, impl, ref, info_line),
